@@ -61,7 +61,7 @@ def arg_for(kind, rnd):
     if kind == 'index':
         return lit_num(rnd)
     if kind == 'key':
-        return J.s(rnd.choice(['k', 'kk', 'z', '']))
+        return J.s(rnd.choice(['k', 'kk', 'z', '', 'n', 'n']))
     if kind == 'needle':
         return scalar_value(rnd) if rnd.random() < 0.8 else any_value(rnd)
     return any_value(rnd)
@@ -116,18 +116,66 @@ def call_for(name, rnd):
     return J.call(name, *args)
 
 
+BOUNDARY = [-1, 0, 1, 2, 3, 4, 5, 6, (3, 2)]         # around the lengths of a1 (3) and s1 (5); 1.5 is not an index
+
+
+def boundary_calls():
+    """every function with index / count parameters x ALL combinations of boundary values (optional ones also absent),
+    the other parameters canonical: deterministic boundary coverage, one call per history"""
+    canon = {'array': J.var('a1'), 'string': J.var('s1'), 'object': J.var('o1'), 'key': J.s('k'), 'needle': J.num(2), 'scalar': J.num(7),
+             'any': J.s('l'), 'arrayorscalar': J.num(7)}
+
+    def lit(v):
+        if isinstance(v, tuple):
+            return J.num(*v)
+        return J.num(v) if v >= 0 else {'k': 'un', 'op': '-', 'e': J.num(-v)}
+    out = []
+    for name in sorted(SIGS):
+        kinds = SIGS[name]
+        if not any(k.lstrip('?') == 'index' for k in kinds) or any(k.startswith('*') for k in kinds):
+            continue
+        second_string = 0
+
+        def expand(i, args):
+            nonlocal second_string
+            if i == len(kinds):
+                out.append((name, J.call(name, *args)))
+                return
+            k = kinds[i]
+            opt = k.startswith('?')
+            k = k.lstrip('?')
+            if opt:
+                out.append((name, J.call(name, *args)))          # optional parameter (and everything after it) absent
+            if k == 'index':
+                for v in BOUNDARY:
+                    expand(i + 1, args + [lit(v)])
+            elif k == 'string' and any(a.get('v') == 's1' for a in args if a.get('k') == 'var'):
+                expand(i + 1, args + [J.s('l')])                 # a search / separator string occurring twice in "hello"
+            else:
+                expand(i + 1, args + [canon.get(k, J.num(1))])
+        expand(0, [])
+    # de-duplicate (optional-absent variants are emitted once per prefix)
+    seen, res = set(), []
+    for name, e in out:
+        key = A.expr_text(e)
+        if key not in seen:
+            seen.add(key)
+            res.append((name, e))
+    return res
+
+
 def snapshot():
     return {'k': 'expr', 'name': '', 'e': J.call('probe', J.num(0), J.var('x'), *[J.var(v) for v in POOL])}
 
 
-def history(rnd, length, names=None):
+def history(rnd, length, names=None, first=None):
     focus = names
     names = names or sorted(SIGS)
     st = [
         {'k': 'expr', 'name': 'a1', 'e': J.call('arrayNew', J.num(1), J.num(2), J.num(3))},
         {'k': 'expr', 'name': 'a2', 'e': J.var('a1')},                                     # alias
         {'k': 'expr', 'name': 'a3', 'e': J.call('arrayCopy', J.var('a1'))},              # copy
-        {'k': 'expr', 'name': 'o1', 'e': J.call('objectNew', J.s('k'), J.var('a1'), J.s('z'), J.num(0))},
+        {'k': 'expr', 'name': 'o1', 'e': J.call('objectNew', J.s('k'), J.var('a1'), J.s('z'), J.num(0), J.s('n'), J.var('null'))},   # 'n': present, null
         {'k': 'expr', 'name': 'o2', 'e': J.var('o1')},
         {'k': 'expr', 'name': 's1', 'e': J.s('hello')},
         {'k': 'expr', 'name': 's2', 'e': J.s('')},
@@ -138,6 +186,9 @@ def history(rnd, length, names=None):
         # an array of confusable values to search / sort / slice
         st[0] = {'k': 'expr', 'name': 'a1', 'e': J.call('arrayNew', *rnd.sample(
             [J.var('true'), J.num(1), J.var('false'), J.num(0), J.s('1'), J.var('null'), J.call('stringLength', J.s('a')), J.num(2), J.s('')], 5))}
+    if first is not None:
+        st.append({'k': 'expr', 'name': 'x', 'e': first})
+        st.append(snapshot())
     for _ in range(length):
         if rnd.random() < 0.12:
             # freshness probe: the result of a call is mutated, the same call is made again - it must not see the mutation
